@@ -26,6 +26,7 @@ import (
 	cryptotypes "github.com/cosmos/cosmos-sdk/crypto/types"
 	simtestutil "github.com/cosmos/cosmos-sdk/testutil/sims"
 	sdk "github.com/cosmos/cosmos-sdk/types"
+	txtypes "github.com/cosmos/cosmos-sdk/types/tx"
 	"github.com/cosmos/cosmos-sdk/types/tx/signing"
 	authsigning "github.com/cosmos/cosmos-sdk/x/auth/signing"
 	authtypes "github.com/cosmos/cosmos-sdk/x/auth/types"
@@ -90,6 +91,7 @@ type GenesisOpts struct {
 }
 
 type Chain struct {
+	nextTip  string // bech32 of the tipper to put into the next transaction built (set by the replay of a transaction that carries a tip)
 	App      *app.App
 	DB       dbm.DB
 	Home     string
@@ -485,6 +487,11 @@ func (c *Chain) BuildTx(msgs []sdk.Msg, required []*Acct, signKeys []cryptotypes
 	}
 	if !feeCoins.IsZero() {
 		b.SetFeeAmount(feeCoins)
+	}
+	if c.nextTip != "" {
+		// the optional tip of the envelope: names an account that neither signs nor pays on this chain
+		b.SetTip(&txtypes.Tip{Tipper: c.nextTip, Amount: sdk.NewCoins(sdk.NewInt64Coin("umed", 5*feeUnit))})
+		c.nextTip = ""
 	}
 	ctx := c.Ctx()
 	type sd struct {
